@@ -19,4 +19,4 @@ require (
 	golang.org/x/text v0.21.0 // indirect
 )
 
-replace ariga.io/atlas => /tmp/vw/status/repo
+replace ariga.io/atlas => /repo
